@@ -41,6 +41,12 @@ func genC19(r *simrt.Rand, tier string, idx int) *hx.Program {
 	p.P["route"] = int64(r.Intn(4))   // 0 programmatic, 1 file, 2 environment, 3 file + environment
 	p.P["enabled"] = int64(r.Intn(2)) // what the operator asks for
 	p.P["interval_s"] = []int64{0, 3600, 86400}[r.Intn(3)]
+	if p.P["interval_s"] == 0 && p.P["enabled"] == 0 && r.Pct(50) {
+		// the interval is given as 0 explicitly (not left at its default). Only judged with telemetry switched
+		// off - the off switch must hold whatever the other telemetry settings say; with telemetry on, an
+		// interval of 0 makes the collector's ticker panic, which is a configuration matter outside C19
+		p.P["zero_interval"] = 1
+	}
 	p.P["envform"] = int64(r.Intn(3)) // how "false"/"true" is spelled in the environment
 	if r.Pct(20) {
 		p.P["idfault"] = int64(1 + r.Intn(2)) // disk fault: the instance id file cannot be written (1) / is empty and read-only (2)
@@ -134,10 +140,16 @@ func execC19(t *testing.T, prog *hx.Program, dec *simrt.Decider, verbose bool) *
 				if interval > 0 {
 					c.Telemetry.IntervalSeconds = int(interval)
 				}
+				if prog.Param("zero_interval", 0) == 1 {
+					c.Telemetry.IntervalSeconds = 0 // e.g. a Config whose Telemetry section was built from the zero value
+				}
 			case 1: // configuration file
 				y := fmt.Sprintf("telemetry:\n  enabled: %v\n", want)
 				if interval > 0 {
 					y += fmt.Sprintf("  interval.seconds: %d\n", interval)
+				}
+				if prog.Param("zero_interval", 0) == 1 {
+					y = fmt.Sprintf("telemetry:\n  enabled: %v\n  interval.seconds: 0\n", want)
 				}
 				os.WriteFile(cfgFile, []byte(y), 0o644)
 				c, err = NewConfig(cfgFile)
